@@ -62,12 +62,26 @@ func init() {
 		"errors.New": {apply: func(fc *fctx, a []*Val, _ token.Pos) []*Val { return []*Val{errVal(fc, true)} }},
 		"errors.Join": {apply: func(fc *fctx, a []*Val, _ token.Pos) []*Val { return []*Val{errVal(fc, false)} }},
 		"fmt.Sprintf": {apply: func(fc *fctx, a []*Val, _ token.Pos) []*Val {
+			// Sprintf("%s%s", x, y) with string arguments is concatenation; everything else is an arbitrary string
+			if a[0].E() == smtString("%s%s") && len(a) == 2 {
+				tr := fc.tr
+				ift := types.NewInterfaceType(nil, nil)
+				e0 := tr.load(tr.cur, tr.u.sla(a[1], "0"), ift)
+				e1 := tr.load(tr.cur, tr.u.sla(a[1], "1"), ift)
+				sid := fmt.Sprint(tr.u.typeID(str))
+				isStr := and(eq(slPart(a[1], 2), "2"), eq(ifPart(e0, 0), sid), eq(ifPart(e1, 0), sid))
+				cat := "(str.++ " + tr.u.unbox(ifPart(e0, 1), "String") + " " + tr.u.unbox(ifPart(e1, 1), "String") + ")"
+				r := fc.freshVal("sprintf", str)
+				tr.assume(implies(isStr, eq(r.E(), cat)))
+				return []*Val{r}
+			}
 			return []*Val{fc.freshVal("sprintf", str)}
 		}},
 		"strconv.Itoa": {apply: func(fc *fctx, a []*Val, _ token.Pos) []*Val {
 			fc.tr.u.decl("itoa", "(declare-fun go_itoa (Int) String)")
 			return []*Val{mkVal("(go_itoa "+a[0].E()+")", "String", str)}
 		}},
+		"(*sync.Once).Do":         {apply: noop},
 		"(*sync.RWMutex).Lock":    {apply: noop},
 		"(*sync.RWMutex).Unlock":  {apply: noop},
 		"(*sync.RWMutex).RLock":   {apply: noop},
